@@ -34,15 +34,15 @@ var (
 
 // claimPlan: everything PRNG-chosen about one NodeClaim's life in a scenario.
 type claimPlan struct {
-	Stage   string            `json:"stage"` // created launched node-appeared registered initialized
-	Flow    string            `json:"flow"`  // claim | node  (what the user deletes)
-	PErr    string            `json:"providerErr"`
-	Reg     world.KubeletOpts `json:"register"`
-	Pods    []podSpec         `json:"pods"`
-	Inline  bool              `json:"inlineAttachment"` // an attachment without a PersistentVolume name
-	PDB     bool              `json:"pdb"`
-	Vanish   bool             `json:"instanceVanishes"`
-	NotReady bool             `json:"kubeletStopsPostingReady"`
+	Stage    string            `json:"stage"` // created launched node-appeared registered initialized
+	Flow     string            `json:"flow"`  // claim | node  (what the user deletes)
+	PErr     string            `json:"providerErr"`
+	Reg      world.KubeletOpts `json:"register"`
+	Pods     []podSpec         `json:"pods"`
+	Inline   bool              `json:"inlineAttachment"` // an attachment without a PersistentVolume name
+	PDB      bool              `json:"pdb"`
+	Vanish   bool              `json:"instanceVanishes"`
+	NotReady bool              `json:"kubeletStopsPostingReady"`
 }
 
 func genPlan(rng *rand.Rand, ci int) claimPlan {
@@ -67,7 +67,7 @@ func genPlan(rng *rand.Rand, ci int) claimPlan {
 			ps.Prio = prios[rng.Intn(len(prios))]
 			if rng.Intn(100) < 40 {
 				ps.Volume = []string{"pvc", "pvc", "ephemeral"}[rng.Intn(3)]
-				ps.Detach = []int{0, 1, 2, 4, -1}[rng.Intn(5)]
+				ps.Detach = []int{0, 1, 3, 8, -1, -1}[rng.Intn(6)]
 			}
 			if ps.Kind == "pdb" {
 				p.PDB = true
@@ -81,8 +81,8 @@ func genPlan(rng *rand.Rand, ci int) claimPlan {
 	return p
 }
 
-func (ps podSpec) pvName() string  { return "pv-" + ps.Name }
-func (ps podSpec) vaName() string  { return "va-" + ps.Name }
+func (ps podSpec) pvName() string { return "pv-" + ps.Name }
+func (ps podSpec) vaName() string { return "va-" + ps.Name }
 func (ps podSpec) pvcName() string {
 	if ps.Volume == "ephemeral" {
 		return ps.Name + "-data" // generic ephemeral volume naming: <pod>-<volume>
